@@ -1,6 +1,7 @@
 package main
 
 import (
+	"encoding/binary"
 	"fmt"
 	"math/rand"
 	"path/filepath"
@@ -17,6 +18,14 @@ import (
 // top-down after a reload (one current handle per container: the "HandlesCurrent" discipline),
 // parents restructured between child operations, children detached (removed / overwritten),
 // mutated while detached, re-attached elsewhere; commits and reloads in between.
+//
+// Extended generators (audit a5; `ext`, set by the registered stream only - the codec stream's
+// nested harvest keeps its own, older operation mix): operations INSIDE detached subtrees (new
+// children, SetType, detach, re-attach), `Set(i, existing detached container)`, re-wrapping a
+// standalone child in its own slot, plain values above the inline limit inside children, ~5%
+// rejected requests through nested handles, and - every third program - a hash-input provider under
+// which keys collide on all four digest levels (children inside inline / external collision groups,
+// inlined maps that own a standalone collision-group slab).
 
 func init() { streams["nested"] = nestedStream }
 
@@ -37,6 +46,17 @@ type node struct {
 	kv     map[hx.TV]sval // maps
 	live   bool           // not disposed
 	ty     uint64         // type info given at creation
+	// C11 bookkeeping of a container that has left its parent: the inline budget its (former)
+	// parent's callback captured, and whether a not-found notification must have happened since
+	budget      uint32
+	hasBudget   bool
+	wantCleared bool
+	wrap        int   // wrappers around it in the slot of its parent (valid while parent != nil)
+	gen         int   // how often the program replaced its handle (lookup, mutable iteration, reopen)
+	formerP     *node // the container it was detached from, and that container's gen at that moment
+	formerGen   int
+	idxReported bool // the mutableElementIndex oracle has spoken about this array
+	inlReported bool // the inline-rule oracle has spoken about this container
 }
 
 type nestEnv struct {
@@ -58,6 +78,24 @@ type nestEnv struct {
 	b        atree.DigesterBuilder
 	force    int  // mutatePlain: 0 random, 1 always insert, 2 remove when possible
 	tiny     bool // plain values of 3..7 bytes (fine-grained walks across the inline limit)
+	ext      bool // extended generators and oracles (see the head of this file)
+	coll     bool // keys collide on every digest level (hx.HashInputBucket)
+	mutated  bool // the last mutatePlain changed its container
+}
+
+// hi is the hash-input provider of the program.
+func (e *nestEnv) hi() atree.HashInputProvider {
+	if e.coll {
+		return hx.HashInputBucket
+	}
+	return hx.HashInput
+}
+
+// violations files one finding under several properties.
+func (e *nestEnv) violations(props []string, what string) {
+	for _, p := range props {
+		e.violation(p, what)
+	}
 }
 
 func (e *nestEnv) violation(prop, what string) {
@@ -95,6 +133,10 @@ func (e *nestEnv) plain(prof int) hx.TV {
 		size = maxInl/3 + uint32(e.rng.Intn(10))
 	default:
 		size = uint32(3 + e.rng.Intn(int(maxInl/2)))
+	}
+	if e.ext && e.rng.Intn(6) == 0 {
+		// around and above the inline limit: the value leaves the child's slab (StorableSlab)
+		size = maxInl - 8 + uint32(e.rng.Intn(60))
 	}
 	e.nextPay++
 	p := e.nextPay
@@ -155,7 +197,7 @@ func (e *nestEnv) newNode(kind byte) *node {
 func (e *nestEnv) keyStr(n *node, k hx.TV) string {
 	// every map uses its own seeded default digester; ask the map's builder
 	b := atree.VerifMapDigesterBuilder(n.mp)
-	digs, err := hx.Digests(b, k)
+	digs, err := hx.DigestsWith(b, e.hi(), k)
 	if err != nil {
 		panic(err)
 	}
@@ -190,6 +232,50 @@ func (e *nestEnv) attached(n *node) bool {
 	return false
 }
 
+// inSubtree reports whether x is top or nested (transitively) in it.
+func inSubtree(x, top *node) bool {
+	for y := x; y != nil; y = y.parent {
+		if y == top {
+			return true
+		}
+	}
+	return false
+}
+
+// topOf is the outermost container of the family n belongs to (the root or a detached container).
+func topOf(n *node) *node {
+	for n.parent != nil {
+		n = n.parent
+	}
+	return n
+}
+
+// target: may an operation that used to be restricted to the attached family pick n?  With the
+// extended generators it may pick any live container, also one inside a detached subtree.
+func (e *nestEnv) target(n *node) bool {
+	if !e.ext {
+		return e.attached(n)
+	}
+	return !e.staleClosure(topOf(n))
+}
+
+// staleClosure: x is a detached container whose handle still carries the callback of its former
+// parent, a MAP, and the program has since replaced its handle of that map (lookup, mutable
+// iteration).  The closure keeps the OLD handle object of the map alive: a second live handle that
+// the program cannot re-fetch away.  If the map's root slab is then replaced through the new handle,
+// the next notification of x walks the stale root (fatal SlabNotFound after the mutation has been
+// applied): known finding F2c, reproduced deterministically by the dualhandle stream.  This stream
+// keeps to ONE live handle object per container (NEST_ASSUME, HandlesCurrent) and therefore leaves
+// such a family alone until x is attached again (which replaces the closure) or the closure is gone.
+// (Array parents are harmless: the detaching Remove / Set erased x from the index of that same
+// handle object, so the closure answers not-found before it touches any slab.)
+func (e *nestEnv) staleClosure(x *node) bool {
+	if !e.ext || x.parent != nil || x == e.root || x.formerP == nil || x.formerP.kind != 'm' {
+		return false
+	}
+	return x.formerP.gen != x.formerGen && x.hasUpdater()
+}
+
 func (e *nestEnv) depth(n *node) int {
 	d := 0
 	for x := n; x.parent != nil; x = x.parent {
@@ -219,9 +305,14 @@ func nestedStream(cfg *Config) *hx.Stats {
 	st.TraceFiles = append(st.TraceFiles, w.Path)
 	nProg := int(16 * cfg.Scale)
 	seen := map[string]bool{}
-	for p := 0; p < nProg; p++ {
+	nestedExotic(st, cfg, w) // scripted, model-free: container keys, oversized wrappers (nestedx.go)
+	// registers of the collision programs nest deeper than the cbor library's default bound of 32
+	// (4 collision levels = about 13 CBOR levels per map on the path): the caller's decoder option
+	defer func(old int) { hx.DecNesting = old }(hx.DecNesting)
+	hx.DecNesting = 1024
+	for p := 0; p < nProg && st.HarnessErr == ""; p++ {
 		T := []uint32{256, 512, 1024, 256}[p%4]
-		e := &nestEnv{w: w, st: st, cfg: cfg, rng: rng, T: T, prog: p}
+		e := &nestEnv{w: w, st: st, cfg: cfg, rng: rng, T: T, prog: p, ext: true, coll: p%3 == 2}
 		runNestedProgram(e, 150+rng.Intn(250))
 		st.Programs++
 		seen[fmt.Sprintf("%d/%d/%d", T, len(e.nodes), e.step)] = true
@@ -280,6 +371,15 @@ func runNestedProgram(e *nestEnv, nOps int) {
 		default:
 			e.opReadBack()
 		}
+		if e.ext && e.st.HarnessErr == "" {
+			if e.rng.Intn(100) < 5 {
+				e.opRejected()
+			}
+			if e.rng.Intn(100) < 3 {
+				e.opRewrap(nil)
+			}
+			e.handleState()
+		}
 		if len(e.st.Violations) > 10 {
 			return
 		}
@@ -329,7 +429,7 @@ func (e *nestEnv) insertInto(p *node, v sval) bool {
 			k.Pay++
 		}
 		w.L("OP mset h=%d k=%s v=%s", p.h, e.keyStr(p, k), valStr(v))
-		old, err := p.mp.Set(hx.CompareKey, hx.HashInput, k, v.atreeValue())
+		old, err := p.mp.Set(hx.CompareKey, e.hi(), k, v.atreeValue())
 		if err != nil {
 			w.L("OBS err:%s", hx.ErrKind(err))
 			e.emitEffects()
@@ -345,16 +445,19 @@ func (e *nestEnv) insertInto(p *node, v sval) bool {
 		p.kv[k] = v
 	}
 	if v.child != nil {
-		v.child.parent = p
+		v.child.parent, v.child.wrap = p, v.wrap
+		v.child.hasBudget, v.child.wantCleared = false, false
 	}
+	e.mutatedDetached(p)
 	return true
 }
 
 func (e *nestEnv) opNewChild() {
-	p := e.pickContainer(func(n *node) bool { return e.attached(n) && e.depth(n) < 4 })
+	p := e.pickContainer(func(n *node) bool { return e.target(n) && e.depth(n) < 4 })
 	if p == nil {
 		return
 	}
+	defer e.guardOthers("inserting a new child container", p)()
 	kind := byte('a')
 	if e.rng.Intn(3) == 0 {
 		kind = 'm'
@@ -378,6 +481,18 @@ func (e *nestEnv) opNewChild() {
 // mutatePlain performs one plain-value mutation on container n through its current handle.
 func (e *nestEnv) mutatePlain(n *node, prop string) {
 	w := e.w
+	e.mutated = false
+	if e.ext && !e.tiny {
+		defer e.guardOthers("a plain mutation", n)()
+	}
+	defer func() {
+		if e.mutated {
+			e.mutatedDetached(n)
+			if e.ext {
+				e.checkInlineRule(n)
+			}
+		}
+	}()
 	prof := e.rng.Intn(4)
 	if n.kind == 'a' {
 		r := e.rng.Intn(10)
@@ -407,6 +522,7 @@ func (e *nestEnv) mutatePlain(n *node, prop string) {
 			n.elems = append(n.elems, sval{})
 			copy(n.elems[i+1:], n.elems[i:])
 			n.elems[i] = sval{tv: v}
+			e.mutated = true
 		case r < 7:
 			i := plainIdx[e.rng.Intn(len(plainIdx))]
 			v := e.plain(prof)
@@ -422,6 +538,7 @@ func (e *nestEnv) mutatePlain(n *node, prop string) {
 			e.emitEffects()
 			e.disposeStorable(old)
 			n.elems[i] = sval{tv: v}
+			e.mutated = true
 		default:
 			i := plainIdx[e.rng.Intn(len(plainIdx))]
 			w.L("OP arem h=%d i=%d", n.h, i)
@@ -436,6 +553,7 @@ func (e *nestEnv) mutatePlain(n *node, prop string) {
 			e.emitEffects()
 			e.disposeStorable(old)
 			n.elems = append(n.elems[:i], n.elems[i+1:]...)
+			e.mutated = true
 		}
 		return
 	}
@@ -454,7 +572,7 @@ func (e *nestEnv) mutatePlain(n *node, prop string) {
 		}
 		v := e.plain(prof)
 		w.L("OP mset h=%d k=%s v=%d:%d", n.h, e.keyStr(n, k), v.Size, v.Pay)
-		old, err := n.mp.Set(hx.CompareKey, hx.HashInput, k, v)
+		old, err := n.mp.Set(hx.CompareKey, e.hi(), k, v)
 		if err != nil {
 			w.L("OBS err:%s", hx.ErrKind(err))
 			e.emitEffects()
@@ -471,10 +589,11 @@ func (e *nestEnv) mutatePlain(n *node, prop string) {
 			e.disposeStorable(old)
 		}
 		n.kv[k] = sval{tv: v}
+		e.mutated = true
 	} else {
 		k := plainKeys[e.rng.Intn(len(plainKeys))]
 		w.L("OP mrem h=%d k=%s", n.h, e.keyStr(n, k))
-		ks, vs, err := n.mp.Remove(hx.CompareKey, hx.HashInput, k)
+		ks, vs, err := n.mp.Remove(hx.CompareKey, e.hi(), k)
 		if err != nil {
 			w.L("OBS err:%s", hx.ErrKind(err))
 			e.emitEffects()
@@ -485,6 +604,7 @@ func (e *nestEnv) mutatePlain(n *node, prop string) {
 		e.emitEffects()
 		e.disposeStorable(vs)
 		delete(n.kv, k)
+		e.mutated = true
 	}
 }
 
@@ -613,12 +733,14 @@ func (e *nestEnv) adopt(v atree.Value, want *node, how string) bool {
 			return false
 		}
 		want.arr = x
+		want.gen++
 	case *atree.OrderedMap:
 		if want.kind != 'm' || x.ValueID().String() != want.vid {
 			e.violation("C10", fmt.Sprintf("%s: expected container %d (%s), got map %s", how, want.h, want.vid, x.ValueID()))
 			return false
 		}
 		want.mp = x
+		want.gen++
 	default:
 		e.violation("C10", fmt.Sprintf("%s: expected container %d, got %T", how, want.h, v))
 		return false
@@ -653,7 +775,7 @@ func (e *nestEnv) getChildArr(p *node, i int) bool {
 func (e *nestEnv) getChildMap(p *node, k hx.TV) bool {
 	c := p.kv[k].child
 	e.w.L("OP mget h=%d k=%s", p.h, e.keyStr(p, k))
-	v, err := p.mp.Get(hx.CompareKey, hx.HashInput, k)
+	v, err := p.mp.Get(hx.CompareKey, e.hi(), k)
 	e.w.L("OBS %s", obsErr(err))
 	e.emitEffects()
 	if err != nil {
@@ -740,7 +862,7 @@ func (e *nestEnv) refetchIterate(p *node) {
 			return true, nil
 		})
 	} else {
-		err = p.mp.Iterate(hx.CompareKey, hx.HashInput, func(k, v atree.Value) (bool, error) {
+		err = p.mp.Iterate(hx.CompareKey, e.hi(), func(k, v atree.Value) (bool, error) {
 			kt, _ := k.(hx.TV)
 			if sv, ok := p.kv[kt]; ok && sv.child != nil {
 				seen = append(seen, met{k: kt, v: v})
@@ -830,6 +952,7 @@ func (e *nestEnv) opReopen() {
 	e.rec = hx.NewRecStorage(e.ps)
 	for i, n := range tops {
 		var err error
+		n.gen++
 		if n.kind == 'a' {
 			n.arr, err = atree.NewArrayWithRootID(e.rec, ids[i])
 		} else {
@@ -900,6 +1023,12 @@ func (e *nestEnv) opBoundaryWalk() {
 		}
 	case 1:
 		e.refetchIterate(c.parent)
+	case 2:
+		if e.ext {
+			e.tiny = false // (the replacement wrappers are not tiny values; keeps the C11 guard on)
+			e.opRewrap(c)
+			e.tiny = true
+		}
 	}
 	e.force = 2
 	hasPlain := func() bool {
@@ -930,10 +1059,11 @@ func (e *nestEnv) opBoundaryWalk() {
 // opSetType changes the type info of a container through its handle (C10: for an inlined child the
 // type lives in the parent's slab, so the parent must be rewritten; C07: read back after reload).
 func (e *nestEnv) opSetType() {
-	n := e.pickContainer(func(x *node) bool { return e.attached(x) })
+	n := e.pickContainer(func(x *node) bool { return e.target(x) })
 	if n == nil {
 		return
 	}
+	defer e.guardOthers("SetType", n)()
 	ty := uint64(43 + e.rng.Intn(3))
 	if e.rng.Intn(4) == 0 {
 		ty = uint64(60 + e.rng.Intn(30))
@@ -965,6 +1095,10 @@ func (e *nestEnv) opPop() {
 	detached := len(e.detached) > 0 && e.rng.Intn(4) == 0
 	if detached {
 		n = e.detached[e.rng.Intn(len(e.detached))]
+		if e.staleClosure(n) {
+			e.st.Hit("skip-stale-closure-family")
+			return
+		}
 	} else {
 		nonEmpty := func(x *node) bool { return e.attached(x) && len(x.elems)+len(x.kv) > 0 }
 		if e.rng.Intn(4) == 0 {
@@ -981,23 +1115,28 @@ func (e *nestEnv) opPop() {
 	if detached {
 		before = e.dumpRoot()
 	}
+	if e.ext {
+		defer e.guardOthers("PopIterate", n)()
+	}
 	// the caller may keep ONE of the popped child containers alive for a while instead of disposing
 	// of it at once (C11: a handle that outlives the removal of its container)
 	var keep *node
+	keepWrap := 0
 	if e.rng.Intn(2) == 0 {
-		var kids []*node
+		var kids []sval
 		for _, v := range n.elems {
 			if v.child != nil {
-				kids = append(kids, v.child)
+				kids = append(kids, v)
 			}
 		}
 		for _, k := range e.sortedKeys(n) {
-			if c := n.kv[k].child; c != nil {
-				kids = append(kids, c)
+			if v := n.kv[k]; v.child != nil {
+				kids = append(kids, v)
 			}
 		}
 		if len(kids) > 0 {
-			keep = kids[e.rng.Intn(len(kids))]
+			kv := kids[e.rng.Intn(len(kids))]
+			keep, keepWrap = kv.child, kv.wrap
 		}
 	}
 	keepArg := ""
@@ -1052,8 +1191,10 @@ func (e *nestEnv) opPop() {
 	}
 	if keep != nil {
 		keep.parent = nil // its subtree survives the disposal of the rest
+		e.noteDetached(keep, n, keepWrap)
 	}
 	e.killDescendants(n)
+	e.mutatedDetached(n)
 	if keep != nil {
 		e.st.Hit(fmt.Sprintf("pop-keep-standalone=%v", keptStandalone))
 		if keptStandalone {
@@ -1067,7 +1208,18 @@ func (e *nestEnv) opPop() {
 			if after := e.dumpRoot(); after != beforeRoot || e.countOf(n) != beforeN {
 				e.violation("C11", fmt.Sprintf("mutation through the handle of container %d, handed out by PopIterate of container %d, changed the former parent", keep.h, n.h))
 			}
+			if e.ext && e.mutated {
+				// the popped slab is still flagged inlined: its callback cannot return early, looks
+				// for the container in the emptied former parent, finds nothing
+				if keep.hasUpdater() {
+					e.violation("C11", fmt.Sprintf("container %d, popped inlined from container %d, was mutated through its handle: the callback cannot have found it in the emptied former parent, yet the handle still carries the callback (not cleared after a not-found)", keep.h, n.h))
+				}
+				e.handleState()
+			}
 			e.deepRemoveValueIn(e.ps, keep.value(0))
+			// (the handle of a kept child works on the recording storage: what its disposal releases -
+			// external collision groups, nested standalone slabs - is the caller's, not an operation's)
+			e.rec.Reset()
 			w.L("FORGET h=%d", keep.h)
 			keep.live = false
 			e.killDescendants(keep)
@@ -1141,6 +1293,10 @@ func (e *nestEnv) opMutate(detached bool) {
 			return
 		}
 		n = e.detached[e.rng.Intn(len(e.detached))]
+		if e.staleClosure(n) {
+			e.st.Hit("skip-stale-closure-family")
+			return
+		}
 		// pick the detached container or something nested in it
 		var cands []*node
 		for _, x := range e.nodes {
@@ -1206,7 +1362,7 @@ func (e *nestEnv) opRestructureParent() {
 func (e *nestEnv) opDetach() {
 	// remove a child container from its parent, or overwrite its slot with a plain value
 	p := e.pickContainer(func(n *node) bool {
-		if !e.attached(n) {
+		if !e.target(n) {
 			return false
 		}
 		for _, v := range n.elems {
@@ -1226,13 +1382,29 @@ func (e *nestEnv) opDetach() {
 	}
 	w := e.w
 	var c *node
+	var cw int
 	var old atree.Storable
 	var err error
 	overwrite := e.rng.Intn(2) == 0
 	// the overwriting value: a plain value, or another (new) container put into the very same slot
 	var repl sval
 	if overwrite {
-		if e.rng.Intn(2) == 0 && e.depth(p) < 4 {
+		// (extended) detach + attach in ONE Set: the overwriting value is an existing DETACHED
+		// container, wrapped or not (never one that holds p: containment stays acyclic)
+		var cand []int
+		if e.ext {
+			for i, d := range e.detached {
+				if !inSubtree(p, d) {
+					cand = append(cand, i)
+				}
+			}
+		}
+		if len(cand) > 0 && e.rng.Intn(2) == 0 && e.depth(p) < 4 {
+			di := cand[e.rng.Intn(len(cand))]
+			repl = sval{child: e.detached[di], wrap: e.rng.Intn(2)}
+			e.detached = append(e.detached[:di], e.detached[di+1:]...)
+			e.st.Hit("replace-by-detached-container")
+		} else if e.rng.Intn(2) == 0 && e.depth(p) < 4 {
 			kind := byte('a')
 			if e.rng.Intn(3) == 0 {
 				kind = 'm'
@@ -1247,6 +1419,7 @@ func (e *nestEnv) opDetach() {
 			repl = sval{tv: e.plain(0)}
 		}
 	}
+	defer e.guardOthers("detaching a child container", p, repl.child)()
 	if p.kind == 'a' {
 		var idx []int
 		for i, v := range p.elems {
@@ -1255,14 +1428,14 @@ func (e *nestEnv) opDetach() {
 			}
 		}
 		i := idx[e.rng.Intn(len(idx))]
-		c = p.elems[i].child
+		c, cw = p.elems[i].child, p.elems[i].wrap
 		if overwrite {
 			w.L("OP aset h=%d i=%d v=%s", p.h, i, valStr(repl))
 			old, err = p.arr.Set(uint64(i), repl.atreeValue())
 			if err == nil {
 				p.elems[i] = repl
 				if repl.child != nil {
-					repl.child.parent = p
+					repl.child.parent, repl.child.wrap = p, repl.wrap
 				}
 			}
 		} else {
@@ -1281,19 +1454,19 @@ func (e *nestEnv) opDetach() {
 		}
 		sort.Slice(keys, func(i, j int) bool { return keys[i].Pay < keys[j].Pay })
 		k := keys[e.rng.Intn(len(keys))]
-		c = p.kv[k].child
+		c, cw = p.kv[k].child, p.kv[k].wrap
 		if overwrite {
 			w.L("OP mset h=%d k=%s v=%s", p.h, e.keyStr(p, k), valStr(repl))
-			old, err = p.mp.Set(hx.CompareKey, hx.HashInput, k, repl.atreeValue())
+			old, err = p.mp.Set(hx.CompareKey, e.hi(), k, repl.atreeValue())
 			if err == nil {
 				p.kv[k] = repl
 				if repl.child != nil {
-					repl.child.parent = p
+					repl.child.parent, repl.child.wrap = p, repl.wrap
 				}
 			}
 		} else {
 			w.L("OP mrem h=%d k=%s", p.h, e.keyStr(p, k))
-			_, old, err = p.mp.Remove(hx.CompareKey, hx.HashInput, k)
+			_, old, err = p.mp.Remove(hx.CompareKey, e.hi(), k)
 			if err == nil {
 				delete(p.kv, k)
 			}
@@ -1328,7 +1501,12 @@ func (e *nestEnv) opDetach() {
 		e.violation("C11", fmt.Sprintf("detached container %d changed identity: %v vs %s", c.h, sid, c.vid))
 	}
 	c.parent = nil
+	e.noteDetached(c, p, cw)
 	e.detached = append(e.detached, c)
+	if repl.child != nil {
+		repl.child.hasBudget, repl.child.wantCleared = false, false
+	}
+	e.mutatedDetached(p)
 }
 
 func (e *nestEnv) opReattach() {
@@ -1337,10 +1515,17 @@ func (e *nestEnv) opReattach() {
 	}
 	i := e.rng.Intn(len(e.detached))
 	c := e.detached[i]
-	p := e.pickContainer(func(n *node) bool { return e.attached(n) && e.depth(n) < 4 })
+	p := e.pickContainer(func(n *node) bool {
+		if e.ext {
+			// anywhere but inside itself, also into another detached subtree
+			return !inSubtree(n, c) && e.depth(n) < 4 && e.target(n)
+		}
+		return e.attached(n) && e.depth(n) < 4
+	})
 	if p == nil {
 		return
 	}
+	defer e.guardOthers("re-attaching a detached container", p, c)()
 	wrap := 0
 	if e.rng.Intn(4) == 0 {
 		wrap = 1
@@ -1463,9 +1648,9 @@ func (e *nestEnv) verifyRoot(when string) {
 	tic := func(a, b atree.TypeInfo) bool { return a == b }
 	var err error
 	if e.root.kind == 'a' {
-		err = atree.VerifyArray(e.root.arr, e.addr, e.root.arr.Type(), tic, hx.HashInput, true)
+		err = atree.VerifyArray(e.root.arr, e.addr, e.root.arr.Type(), tic, e.hi(), true)
 	} else {
-		err = atree.VerifyMap(e.root.mp, e.addr, e.root.mp.Type(), tic, hx.HashInput, true)
+		err = atree.VerifyMap(e.root.mp, e.addr, e.root.mp.Type(), tic, e.hi(), true)
 	}
 	if err != nil {
 		e.violation("C10", when+": outermost container is not structurally valid: "+err.Error())
@@ -1476,6 +1661,9 @@ func (e *nestEnv) fullCheck() {
 	e.w.L("FULL h=%d %s", e.root.h, e.dumpRoot())
 	e.opReadBack()
 	e.verifyRoot("periodic check")
+	if e.ext {
+		e.checkDetached()
+	}
 	// C06 / C07 on every slab of the write set (nested slabs: inlined children, wrappers, re-based
 	// sizes after inline <-> standalone transitions and bulk pops): reported size = encoded length,
 	// flags truthful, decode / re-encode round trip
@@ -1558,5 +1746,427 @@ func (e *nestEnv) opCommitReload() {
 		v := e.st.Violations[n]
 		v.Property = "C03"
 		e.st.Violations = append(e.st.Violations, v)
+	}
+}
+
+// ------------------------------------------------------------------------------------------------
+// Oracles added after audit a5 (model-free unless said otherwise)
+
+// dumpExcept renders every standalone container among the first nBefore created ones that is not
+// in excl: root slab tree (index slabs, data slabs, external collision groups; inlined children in
+// place).  Large-value slabs are immutable and left out.
+func (e *nestEnv) dumpExcept(excl map[*node]bool, nBefore int) string {
+	var sb strings.Builder
+	for _, x := range e.nodes[:nBefore] {
+		if !x.live || excl[x] {
+			continue
+		}
+		if x.kind == 'a' {
+			if !x.arr.Inlined() {
+				fmt.Fprintf(&sb, "[%d] %s\n", x.h, hx.DumpTree(e.ps, atree.VerifArrayRoot(x.arr)))
+			}
+		} else if !x.mp.Inlined() {
+			fmt.Fprintf(&sb, "[%d] %s\n", x.h, hx.DumpTree(e.ps, atree.VerifMapRoot(x.mp)))
+		}
+	}
+	return sb.String()
+}
+
+// guardOthers (C11, both directions): an operation through a handle of one family of containers
+// (the outermost container with everything nested in it, or a detached container with everything
+// nested in it) leaves the slabs of every OTHER family exactly as they were - in particular the
+// former parent of a detached container, and every detached container while its former parent goes
+// on being mutated.  ns: containers whose families the operation may legitimately change.
+func (e *nestEnv) guardOthers(what string, ns ...*node) func() {
+	tops := map[*node]bool{}
+	for _, n := range ns {
+		if n != nil {
+			tops[topOf(n)] = true
+		}
+	}
+	excl := map[*node]bool{}
+	for _, x := range e.nodes {
+		if x.live && tops[topOf(x)] {
+			excl[x] = true
+		}
+	}
+	nBefore := len(e.nodes)
+	before := e.dumpExcept(excl, nBefore)
+	return func() {
+		if after := e.dumpExcept(excl, nBefore); after != before {
+			e.violation("C11", fmt.Sprintf("%s (container %d) changed a container outside the family it belongs to:\nbefore:\n%s\nafter:\n%s",
+				what, ns[0].h, clip(before, 1500), clip(after, 1500)))
+		}
+	}
+}
+
+func clip(s string, n int) string {
+	if len(s) > n {
+		return s[:n] + "..."
+	}
+	return s
+}
+
+// noteDetached records, for container c that has just left slot (p, wrap), the inline budget the
+// callback of its current handle captured (array.go / map.go setCallbackWithChild: the parent's
+// per-element limit minus the wrapper bytes).
+func (e *nestEnv) noteDetached(c, p *node, wrap int) {
+	c.budget, c.hasBudget, c.wantCleared = slotBudget(p, wrap), true, false
+	c.formerP, c.formerGen = p, p.gen
+}
+
+func (n *node) inlinable(budget uint32) bool {
+	if n.kind == 'a' {
+		return n.arr.Inlinable(budget)
+	}
+	return n.mp.Inlinable(budget)
+}
+
+func (n *node) hasUpdater() bool {
+	if n.kind == 'a' {
+		return atree.VerifArrayHasParentUpdater(n.arr)
+	}
+	return atree.VerifMapHasParentUpdater(n.mp)
+}
+
+// mutatedDetached is called after a SUCCESSFUL element mutation through the handle of n.  If n is
+// a detached container whose handle still carried the callback of its former parent, the callback
+// was invoked; unless it returned early (standalone and not inlinable under the captured budget -
+// evaluated on the state after the mutation, which is the state now) it looked for n in the former
+// parent, found nothing, and the library must have cleared it (C11 mechanism "callback cleared
+// after a not-found", array.go notifyParentIfNeeded / map.go notifyParentIfNeeded).
+func (e *nestEnv) mutatedDetached(n *node) {
+	if n.parent != nil || n == e.root || !n.hasBudget {
+		return
+	}
+	if n.inlinable(n.budget) {
+		n.wantCleared = true
+	}
+}
+
+// vidStr renders the value ID of n like verif_hooks.go renders value IDs ("<address>.<index>").
+func vidStr(n *node) string {
+	var v atree.ValueID
+	if n.kind == 'a' {
+		v = n.arr.ValueID()
+	} else {
+		v = n.mp.ValueID()
+	}
+	return fmt.Sprintf("%d.%d", binary.BigEndian.Uint64(v[:8]), binary.BigEndian.Uint64(v[8:]))
+}
+
+// handleState (every step; C10 state anchors `parentUpdater`, `mutableElementIndex`; C11 state anchor
+// "mutableElementIndex entry of the detached child", mechanism "callback cleared after a not-found"):
+//   - model tie: one HST line with, per live container, whether its current handle carries a parent
+//     callback and (arrays) its mutableElementIndex; the World replayer renders the same from
+//     `hinfo` / `mutIdx` and compares;
+//   - model-free: every container that sits in a parent has a callback; the mutableElementIndex of
+//     every array is exactly {child value ID -> position} of the child containers it holds; a detached
+//     container that was notified not-found has no callback any more.
+func (e *nestEnv) handleState() {
+	if !e.ext {
+		return
+	}
+	var sb strings.Builder
+	sb.WriteString("HST")
+	for _, n := range e.nodes {
+		if !n.live {
+			continue
+		}
+		u := n.hasUpdater()
+		if n.kind == 'a' {
+			got := atree.VerifArrayMutableElementIndex(n.arr)
+			fmt.Fprintf(&sb, " %d:%s:%s", n.h, b01(u), got)
+			var want []string
+			for i, v := range n.elems {
+				if v.child != nil {
+					want = append(want, fmt.Sprintf("%s=%d", vidStr(v.child), i))
+				}
+			}
+			key := func(x string) string { return strings.SplitN(x, "=", 2)[0] }
+			sort.Slice(want, func(i, j int) bool { return key(want[i]) < key(want[j]) }) // the hook sorts by value ID
+			if w := strings.Join(want, ","); w != got && !n.idxReported {
+				n.idxReported = true
+				props := []string{"C10"}
+				have := map[string]bool{}
+				for _, x := range want {
+					have[strings.SplitN(x, "=", 2)[0]] = true
+				}
+				for _, x := range strings.Split(got, ",") {
+					if x != "" && !have[strings.SplitN(x, "=", 2)[0]] {
+						props = []string{"C10", "C11"} // an entry for a container the array no longer holds
+					}
+				}
+				e.violations(props, fmt.Sprintf("mutableElementIndex of array %d is {%s}; the child containers it holds are at {%s}", n.h, got, w))
+			}
+		} else {
+			fmt.Fprintf(&sb, " %d:%s", n.h, b01(u))
+		}
+		e.checkInlineRule(n)
+		if n.parent != nil && !u {
+			e.violation("C10", fmt.Sprintf("container %d sits in container %d but its current handle has no parent callback: mutations through it cannot reach the parent", n.h, n.parent.h))
+		}
+		if n.parent == nil && n.wantCleared && u {
+			e.violation("C11", fmt.Sprintf("detached container %d was mutated through its handle while inlinable under the budget of its former parent (%d bytes): the callback looked it up in the former parent and cannot have found it, yet the handle still carries the callback (not cleared after a not-found)", n.h, n.budget))
+			n.wantCleared = false
+		}
+	}
+	e.w.L("%s", sb.String())
+}
+
+// storageImage renders everything a rejected request could have left a trace in: every slab the
+// storage can produce (pending or committed) and the keys of the write set.
+func (e *nestEnv) storageImage() string {
+	var sb strings.Builder
+	deltas := atree.VerifDeltas(e.ps)
+	seen := map[atree.SlabID]bool{}
+	var ids []atree.SlabID
+	for id, sl := range deltas {
+		seen[id] = true
+		ids = append(ids, id)
+		if sl == nil {
+			fmt.Fprintf(&sb, "delta %s deleted\n", hx.IDStr(id))
+		} else {
+			fmt.Fprintf(&sb, "delta %s\n", hx.IDStr(id))
+		}
+	}
+	for _, id := range e.ledger.SortedIDs() {
+		if !seen[id] {
+			ids = append(ids, id)
+		}
+	}
+	hx.SortIDs(ids)
+	lines := strings.Split(sb.String(), "\n")
+	sort.Strings(lines)
+	out := []string{strings.Join(lines, "\n")}
+	for _, id := range ids {
+		if sl, isDelta := deltas[id]; isDelta {
+			if sl != nil {
+				out = append(out, atree.VerifDumpSlab(sl, hx.Describe))
+			}
+			continue
+		}
+		sl, ok, err := e.ps.Retrieve(id)
+		if err != nil || !ok {
+			out = append(out, "MISSING("+hx.IDStr(id)+")")
+			continue
+		}
+		out = append(out, atree.VerifDumpSlab(sl, hx.Describe))
+	}
+	return strings.Join(out, "\n")
+}
+
+// opRejected issues a request that cannot be served through the handle of a nested container (index
+// out of range for Get / Set / Insert / Remove, absent key for Get / Remove) at any depth, attached or
+// inside a detached subtree.  C18 ("leaves the container, its ancestors and the pending write set
+// exactly as they were"), and C10's share of it (every ancestor unchanged): the error names the cause,
+// no slab of the whole storage and no key of the write set differs afterwards, the handle bookkeeping
+// is untouched (next HST line), the model answers the same error with an empty effect.
+func (e *nestEnv) opRejected() {
+	n := e.pickContainer(func(x *node) bool { return true })
+	if n == nil {
+		return
+	}
+	w := e.w
+	before, beforeTree := e.storageImage(), e.dumpExcept(nil, len(e.nodes))
+	var err error
+	wantKind := "IndexOutOfBounds:User"
+	if n.kind == 'a' {
+		switch e.rng.Intn(4) {
+		case 0:
+			i := len(n.elems) + e.rng.Intn(3)
+			w.L("OP arem h=%d i=%d", n.h, i)
+			_, err = n.arr.Remove(uint64(i))
+		case 1:
+			i := len(n.elems) + e.rng.Intn(3)
+			v := e.plain(0)
+			w.L("OP aset h=%d i=%d v=%d:%d", n.h, i, v.Size, v.Pay)
+			_, err = n.arr.Set(uint64(i), v)
+		case 2:
+			i := len(n.elems) + e.rng.Intn(3)
+			w.L("OP aget h=%d i=%d", n.h, i)
+			_, err = n.arr.Get(uint64(i))
+		default:
+			i := len(n.elems) + 1 + e.rng.Intn(3)
+			v := e.plain(0)
+			w.L("OP ains h=%d i=%d v=%d:%d", n.h, i, v.Size, v.Pay)
+			err = n.arr.Insert(uint64(i), v)
+		}
+	} else {
+		wantKind = "KeyNotFound:User"
+		k := hx.TV{Size: 9, Pay: uint64(500 + e.rng.Intn(80))}
+		if e.rng.Intn(2) == 0 {
+			w.L("OP mrem h=%d k=%s", n.h, e.keyStr(n, k))
+			_, _, err = n.mp.Remove(hx.CompareKey, e.hi(), k)
+		} else {
+			w.L("OP mget h=%d k=%s", n.h, e.keyStr(n, k))
+			_, err = n.mp.Get(hx.CompareKey, e.hi(), k)
+		}
+	}
+	both := []string{"C18", "C10"}
+	if err == nil {
+		w.L("OBS ok")
+		e.violations(both, fmt.Sprintf("an invalid request through the handle of nested container %d was accepted", n.h))
+	} else {
+		w.L("OBS err:%s", hx.ErrKind(err))
+		if k := hx.ErrKind(err); k != wantKind {
+			e.violation("C18", fmt.Sprintf("a rejected request through the handle of nested container %d is reported as %s, expected %s", n.h, k, wantKind))
+		}
+	}
+	if eff := hx.NetEffect(e.rec.Effs); eff != "-" {
+		e.violations(both, fmt.Sprintf("a rejected request through the handle of nested container %d stored / removed slabs: %s", n.h, eff))
+	}
+	e.emitEffects()
+	e.st.Hit(fmt.Sprintf("rejected-depth%d-attached=%v", e.depth(n), e.attached(n)))
+	if after := e.storageImage(); after != before {
+		e.violations(both, fmt.Sprintf("a rejected request through the handle of nested container %d left a trace in the storage (slabs or write-set keys differ)", n.h))
+	} else if after := e.dumpExcept(nil, len(e.nodes)); after != beforeTree {
+		e.violations(both, fmt.Sprintf("a rejected request through the handle of nested container %d changed a container as seen through the handles", n.h))
+	}
+}
+
+// checkDetached (C11 "the detached container itself remains an intact, independently stored value
+// with unchanged identity"): every detached container reads back, through its own handle, exactly
+// what the history put into it, and is structurally valid as a root.
+func (e *nestEnv) checkDetached() {
+	tic := func(a, b atree.TypeInfo) bool { return a == b }
+	for _, d := range e.detached {
+		nv := len(e.st.Violations)
+		var err error
+		if d.kind == 'a' {
+			e.compareArray(fmt.Sprintf("detached%d", d.h), d.arr, d)
+			err = atree.VerifyArray(d.arr, e.addr, d.arr.Type(), tic, e.hi(), true)
+		} else {
+			e.compareMap(fmt.Sprintf("detached%d", d.h), d.mp, d)
+			err = atree.VerifyMap(d.mp, e.addr, d.mp.Type(), tic, e.hi(), true)
+		}
+		for i, end := nv, len(e.st.Violations); i < end; i++ {
+			// the comparison helpers speak for C10 (reading through a parent); here the subject is C11
+			v := e.st.Violations[i]
+			v.Property = "C11"
+			e.st.Violations = append(e.st.Violations, v)
+		}
+		if err != nil {
+			e.violation("C11", fmt.Sprintf("detached container %d is not a structurally valid standalone value: %v", d.h, err))
+		}
+	}
+}
+
+// slotBudget: the inline budget the callback of a child in slot (p, wrap) captures.
+func slotBudget(p *node, wrap int) uint32 {
+	_, _, _, maxArr, _, _ := atree.VerifThresholds()
+	b := maxArr
+	if p.kind == 'm' {
+		b = atree.VerifMaxInlineMapValueSize(9) // every key of this stream is 9 bytes long
+	}
+	if uint32(2*wrap) > b {
+		return 0
+	}
+	return b - uint32(2*wrap)
+}
+
+// opRewrap overwrites the slot of a nested container that currently is a SEPARATE slab by the very
+// same container under a different number of wrappers (`parent.Set(i, Some(child))`, the in-place
+// change of the optional-ness of a field).  The library hands back a reference to the container
+// itself, which the caller therefore does not dispose of; the parent must go on tracking the child
+// (array.go Set: the index entry is erased only if the new value is ANOTHER container - compared after
+// unwrapping).  Restricted to standalone children that stay standalone: for an inlined child the
+// request is observation O2 (DESIGN 13.8), and the model decides the form of the handed-back storable
+// from the container's state after the Set.
+func (e *nestEnv) opRewrap(c *node) {
+	if c == nil {
+		c = e.pickContainer(func(x *node) bool {
+			if x.parent == nil || !e.target(x) {
+				return false
+			}
+			if x.kind == 'a' {
+				return !x.arr.Inlined()
+			}
+			return !x.mp.Inlined()
+		})
+	}
+	if c == nil || c.parent == nil || (c.kind == 'a' && c.arr.Inlined()) || (c.kind == 'm' && c.mp.Inlined()) {
+		return // (an inlined child overwritten by itself is observation O2, not a history of C10)
+	}
+	p := c.parent
+	w := e.w
+	defer e.guardOthers("re-wrapping a child in its slot", p)()
+	pick := func(old int) int {
+		nw := e.rng.Intn(4)
+		if nw == old || (nw < old && c.inlinable(slotBudget(p, nw))) {
+			nw = old + 1
+		}
+		return nw
+	}
+	var old atree.Storable
+	var err error
+	if p.kind == 'a' {
+		i := -1
+		for j, v := range p.elems {
+			if v.child == c {
+				i = j
+			}
+		}
+		if i < 0 {
+			return
+		}
+		nv := sval{child: c, wrap: pick(p.elems[i].wrap)}
+		w.L("OP aset h=%d i=%d v=%s", p.h, i, valStr(nv))
+		old, err = p.arr.Set(uint64(i), nv.atreeValue())
+		if err == nil {
+			p.elems[i], c.wrap = nv, nv.wrap
+		}
+	} else {
+		var key *hx.TV
+		for _, k := range e.sortedKeys(p) {
+			if p.kv[k].child == c {
+				kk := k
+				key = &kk
+			}
+		}
+		if key == nil {
+			return
+		}
+		nv := sval{child: c, wrap: pick(p.kv[*key].wrap)}
+		w.L("OP mset h=%d k=%s v=%s", p.h, e.keyStr(p, *key), valStr(nv))
+		old, err = p.mp.Set(hx.CompareKey, e.hi(), *key, nv.atreeValue())
+		if err == nil {
+			p.kv[*key], c.wrap = nv, nv.wrap
+		}
+	}
+	if err != nil {
+		w.L("OBS err:%s", hx.ErrKind(err))
+		e.emitEffects()
+		e.violation("C10", fmt.Sprintf("overwriting the slot of container %d in container %d by the same container under other wrappers failed: %v", c.h, p.h, err))
+		return
+	}
+	w.L("OBS ok:%s", renderStorable(old))
+	e.emitEffects()
+	e.st.Hit(fmt.Sprintf("rewrap-in-%c", p.kind))
+	if id, kind, ok := storableContainerID(old); !ok || kind != 'r' || atree.VerifSlabIDString(id) != vidStr(c) {
+		e.violation("C10", fmt.Sprintf("overwriting the slot of standalone container %d by the same container: handed back %s, not a reference to it", c.h, renderStorable(old)))
+	}
+	e.mutatedDetached(p)
+}
+
+// checkInlineRule (C10, second sentence: "a child is stored inline in its parent exactly when it
+// occupies one slab that fits the parent's per-element limit and as a separate slab otherwise"),
+// stated with the library's own public predicates: for a container in slot (parent, wrappers),
+// Inlined() == Inlinable(per-element limit of the parent - wrapper bytes).  Holds between any two
+// operations under the one-current-handle discipline (every mutator re-decides through the parent).
+func (e *nestEnv) checkInlineRule(n *node) {
+	if n.parent == nil || n.inlReported {
+		return
+	}
+	b := slotBudget(n.parent, n.wrap)
+	inl := false
+	if n.kind == 'a' {
+		inl = n.arr.Inlined()
+	} else {
+		inl = n.mp.Inlined()
+	}
+	if able := n.inlinable(b); inl != able {
+		n.inlReported = true
+		e.violation("C10", fmt.Sprintf("container %d in container %d under %d wrappers: Inlined() = %v but Inlinable(%d) = %v (per-element limit of the parent minus the wrapper bytes): not stored inline exactly when it fits", n.h, n.parent.h, n.wrap, inl, b, able))
 	}
 }
